@@ -89,9 +89,8 @@ def splitNewTier (g : Tg α) (tgt : String) (target : Option (ITier α)) (newEs 
   | some t => newEs.foldlM (fun acc e => acc.insertEntry e .error) t
 
 /-- remove the old target (if any), append the new one -/
-def splitInstall (g : Tg α) (tgt : String) (nt : ITier α) : Except Err (Tg α) := do
-  let g1 ← if g.names.contains tgt then g.removeTier tgt else pure g
-  g1.addTier (.I nt) none .warning
+def splitInstall (g : Tg α) (tgt : String) (nt : ITier α) : Except Err (Tg α) :=
+  (if g.names.contains tgt then g.removeTier tgt else pure g) >>= fun g1 => g1.addTier (.I nt) none .warning
 
 /-- `praatio_scripts.splitTierEntries(tg, sourceTierName, targetTierName, startT, endT)`.  The function mutates `tg`
 and returns it; every step that can raise comes before the first mutation (`splitInstall` cannot fail: the name has
